@@ -461,6 +461,13 @@ FrameEndOK(e, mesh) ==
   /\ Cardinality(Verts(mesh)) = 62 /\ e.nverts = 62 /\ Cardinality(mesh.edges) = 360
 ReflectedOK(e) == e.match_face \in 0..11 /\ Adjacent(e.origin, e.match_face) /\ e.dev_ppm \in -1..1
 
+\* which quintant / memo triangle / reflected region a face-plane direction belongs to (angle in half-units)
+SectorOK(e) ==
+  /\ e.quintant = QuintantOfAngle(e.g)
+  /\ e.idx = FaceTriangleIndex(e.g)
+  /\ e.refl = e.beyond                                  \* reflected triangle iff the point lies beyond the face edge
+  /\ e.quintant = QuintantOfTriangle(e.idx)
+
 ---------------------------------------------------------------------------
 (* C06: frozen golden trace of the reference release *)
 GoldenGeomOK(e) == e.ok /\ e.dev_e12 <= 1000            \* centre and corners within 1e-9 degrees
